@@ -234,13 +234,35 @@ def reverse_map(ctx, ents):
     r.check("R14.5", ord("&") not in emap, "reverse-no-amp", "serializer.py:%d" % loop.lineno,
             "'&' itself is in the reverse map")
     f = ctx.repo.func("serializer.py", "htmlentityreplace_errors")
-    src = " ".join(norm(f.node).split())
-    semi_guard = "endswith(';')" in src
-    r.idiom("R14.5", "res.append('&')" in src and "res.append(e)" in src and "if not e.endswith(';'): res.append(';')" in src
-            and "res.append('&#x%s;' % hex(cp)[2:])" in src, "emitted-form", f.where,
-            "the replacement is no longer written as &name; / &#x<hex>;",
-            wrong=[(not semi_guard, "a named reference taken from the reverse map is written without making sure it ends in ';': "
-                    "the legacy names (e.g. Eacute) then swallow following letters or are not decoded in attribute values")])
+    # the text written for one code point, decided by evaluating the emitting loop's body for a code point whose reverse-map
+    # entry ends in ';', one whose entry does not, and one without an entry
+    emit_loop = [n for n in ast.walk(f.node) if isinstance(n, ast.For) and isinstance(n.target, ast.Name) and
+                 any(isinstance(x, ast.Call) and norm(x.func) == "_encode_entity_map.get" for x in ast.walk(n))]
+    if len(emit_loop) != 1:
+        r.idiom("R14.5", False, "emitted-form", f.where, "the loop that writes the replacement was not found")
+    else:
+        lp = emit_loop[0]
+        for label, table, exp in (("name-with-semicolon", {0xE9: "eacute;"}, "&eacute;"), ("legacy-name", {0xE9: "Eacute"}, "&Eacute;"),
+                                  ("no-name", {}, "&#xe9;")):
+            pieces = []
+
+            def stmt_hook(st, out, interp, pieces=pieces):
+                if isinstance(st, ast.Expr) and isinstance(st.value, ast.Call) and isinstance(st.value.func, ast.Attribute) and \
+                        st.value.func.attr == "append" and len(st.value.args) == 1:
+                    pieces.append(interp.eval_expr(st.value.args[0], out.env))
+                    return False
+                return NotImplemented
+            interp = MiniInterp(ctx.ce, f.module, stmt_hook=stmt_hook)
+            try:
+                interp.run(lp.body, {lp.target.id: 0xE9, "_encode_entity_map": table})
+                got = "".join(pieces)
+            except (AnalysisError, NotConstant, TypeError) as e:
+                r.idiom("R14.5", False, "emitted-form::%s" % label, f.where, "the emitting loop is not evaluable (%s)" % str(e)[:80])
+                continue
+            r.check("R14.5", got == exp, "emitted-form::%s" % label, "serializer.py:%d" % lp.lineno,
+                    "an unencodable U+00E9 with reverse-map entry %r is written as %r; a reference the tokenizer decodes back needs %r "
+                    "(a name without ';' swallows following letters and is not decoded in attribute values)" % (table.get(0xE9), got, exp),
+                    detail={"entry": table.get(0xE9), "written": got})
     ctx.r.extra["reverse_map_entries"] = len(emap)
 
 
